@@ -25,16 +25,16 @@ ASSUMPTIONS = [
     "the group is the exact stabiliser of the supplied bank (independent of C03) intersected with the stabiliser of the layer's per-axis options; nothing is claimed for g outside it",
     "bias-free core: bilinear in (weights, input); exact on integer data for {0,+-1} banks, bilinearity asserted on integer combinations",
     "L1: with biases and normalised banks, generic real parameters/inputs derived from VERIF_SEED, tolerance 1e-4 relative, a mismatch must repeat on two further independent draws to be reported",
-    "L2: d in {2,3}; types k<=2 (d=3: k<=1); unit stride; deviation bound quick 2 (d=2 and d=3), thorough 4 (d=3: 3)",
+    "L2: d in {2,3}; types k<=2 (d=3: k<=1); unit stride; deviation bound quick 2 (d=2 and d=3), thorough 3 (d=2 and d=3)",
 ]
 
 
 def bounds(tier):
-    return {"dims_d2": {k: (v if k != "sig" else f"{len(v)} signatures") for k, v in CL.dims(2, False).items()}, "dims_d3": {k: (v if k != "sig" else f"{len(v)} signatures") for k, v in CL.dims(3, False).items()}, "deviation_bound": {"quick": {"d2": 2, "d3": 2}, "thorough": {"d2": 4, "d3": 3}}[tier], "group": "computed stabiliser of the bank"}
+    return {"dims_d2": {k: (v if k != "sig" else f"{len(v)} signatures") for k, v in CL.dims(2, False).items()}, "dims_d3": {k: (v if k != "sig" else f"{len(v)} signatures") for k, v in CL.dims(3, False).items()}, "deviation_bound": {"quick": {"d2": 2, "d3": 2}, "thorough": {"d2": 3, "d3": 3}}[tier], "group": "computed stabiliser of the bank"}
 
 
 def cases(tier, seed):
-    plan = {"quick": {2: 2, 3: 2}, "thorough": {2: 4, 3: 3}}[tier]
+    plan = {"quick": {2: 2, 3: 2}, "thorough": {2: 3, 3: 3}}[tier]
     return CL.gen_cases(tier, plan, False)
 
 
